@@ -3,7 +3,7 @@
 from __future__ import annotations
 
 import ast
-from typing import Any, Dict, List, Optional
+from typing import Any, Dict, List, Optional, Tuple
 
 from .. import codec, docs, links, parity
 from ..cfg import CFG
@@ -538,9 +538,9 @@ def slot_terminators(repo: Repo, rep, P: str):
 
 
 # ----------------------------------------------------------------------------- R7
-def clone_rule(repo: Repo, rep, P: str):
+def container_clone_ok(repo: Repo) -> Tuple[bool, List[str]]:
+    """Container.clone is write_to(buffer); buffer.seek(0); return read_sunvox_file(buffer) over one buffer."""
     cont = repo.cls("Container", module="rv.container")
-    rel = cont.file.rel
     fn = repo.own_method(cont, "clone")
     from .. import inline
     from ..packed import single_defs, resolve_names
@@ -578,6 +578,14 @@ def clone_rule(repo: Repo, rep, P: str):
         ok = same_buffer(rcalls[0].args[0].id, b) and any(same_buffer(c.func.value.id, b) for c in scalls) \
             and inline.pos(wcalls[0]) < min(inline.pos(c) for c in scalls if same_buffer(c.func.value.id, b)) < inline.pos(rcalls[0]) \
             and len(rets) == 1 and isinstance(rets[0], ast.Call) and norm(rets[0].func).split(".")[-1] == "read_sunvox_file"
+    return ok, calls
+
+
+def clone_rule(repo: Repo, rep, P: str):
+    cont = repo.cls("Container", module="rv.container")
+    rel = cont.file.rel
+    fn = repo.own_method(cont, "clone")
+    ok, calls = container_clone_ok(repo)
     if ok:
         rep.ok(f"{P}.R7", f"{rel}:Container.clone", "write_to(f); f.seek(0); return read_sunvox_file(f)", "clone = save then load")
     else:
